@@ -233,6 +233,10 @@ func (c *c16ctx) readOne(id string, input []byte, max uint32, shape uint64) {
 		http2.ReleaseFrameHeader(fr)
 	case errors.Is(err, http2.ErrUnknownFrameType):
 		r.Inc("unknown_type", 1)
+		if haveHeader && length > int(max) {
+			// "unknown type" is the one error callers treat as skip-and-carry-on: an oversized frame must not get it
+			r.Fail("C16.frame-oversized-accepted", id, fmt.Sprintf("frame of unknown type %d announcing %d bytes with negotiated maximum %d was skipped (ErrUnknownFrameType, %d bytes drawn) instead of refused for its size", typ, length, max, consumed), nil, replay)
+		}
 		if complete && length <= int(max) && consumed != 9+length {
 			r.Fail("C16.unknown-type-not-skipped", id, fmt.Sprintf("unknown type %d: consumed %d bytes, the frame has 9+%d", typ, consumed, length), nil, replay)
 		}
@@ -537,9 +541,14 @@ func TestC16(t *testing.T) {
 				in, _ = enc.Field(in, f, randChoice(rng))
 			}
 			in[rng.Intn(len(in))] ^= 1 << uint(rng.Intn(8))
-		case 2: // huge declared lengths
+		case 2: // huge declared lengths, incl. values with the top bit set (negative once converted to int)
 			in = append(in, []byte{0x00, 0x40, 0x10}[rng.Intn(3)])
-			in = hpackref.AppendInt(in, byte(rng.Intn(2))<<7, 7, uint64(rng.Int63()))
+			if rng.Intn(2) == 0 {
+				in = hpackref.AppendInt(in, 0, 7, 1) // a one-byte literal name first, so the value length is what overflows
+				in = append(in, 'n')
+			}
+			v := []uint64{uint64(rng.Int63()), 1 << 63, 1<<63 + uint64(rng.Intn(1000)), 1<<64 - 1, rng.Uint64() | 1<<63, 1<<62 + uint64(rng.Intn(100)), 1<<32 + uint64(rng.Intn(100)), 1<<31 - 1, 1 << 31}[rng.Intn(9)]
+			in = hpackref.AppendInt(in, byte(rng.Intn(2))<<7, 7, v)
 			in = append(in, 'x')
 		case 3: // long varints
 			in = append(in, []byte{0xff, 0x7f, 0x3f, 0x1f, 0x0f}[rng.Intn(5)])
